@@ -137,6 +137,29 @@ ATOM_BOOL = T("GoAtomicBoolean", [
     ("tie_atomic_bool_Set", "CM.GoTie.GoAtomicBoolean.go_Set_eq", "`Set(b)` is one store of 1 / 0"),
     ("tie_atomic_bool_field", "CM.GoTie.GoAtomicBoolean.get_after_set", "so the word is a Bool field of the model state")])
 
+# ---- faststats constructors, wall-clock wrappers, SnapshotAt, IterateDurations, Var (units GoNewRC … GoSDVar)
+FSNEW_RC = T("GoNewRC", [
+    ("tie_rolling_New", "CM.GoTie.GoNewRC.go_NewRollingCounter_eq", "`NewRollingCounter` makes ONE new array of numBuckets zero cells (panic for a negative count) and returns the counter over it: sums 0, ring from `now`, newest index 0"),
+    ("tie_rolling_New_abs", "CM.GoTie.GoNewRC.newRC_abs", "… read back into the model it is `RC.new n w`, started at `now`"),
+    ("tie_rolling_New_own", "CM.GoTie.GoNewRC.NewRollingCounter_new", "… its bucket slice is fresh and nothing older is disturbed")]) + T("GoRCWall", [
+    ("tie_rolling_RollingSum", "CM.GoTie.GoRCWall.go_RollingSum_eq", "`RollingSum()` = `RC.sumAt` at exactly one wall-clock reading"),
+    ("tie_rolling_RollingSum_at", "CM.GoTie.GoRCWall.go_RollingSum_is_RollingSumAt", "… i.e. today's `RollingSumAt` at that reading"),
+    ("tie_rolling_StringAt", "CM.GoTie.GoRCWall.go_StringAt_eq", "`StringAt` renders GetBuckets(now) newest first, RollingSumAt(now), TotalSum()")])
+FSNEW_RP = T("GoNewRP", [
+    ("tie_ring_newDurationsBucket", "CM.GoTie.GoNewRP.go_newDurationsBucket_eq", "`newDurationsBucket(size)`: one new buffer of exactly `size` zero cells, cursor 0"),
+    ("tie_ring_makeBuckets", "CM.GoTie.GoNewRP.go_makeBuckets_eq", "`makeBuckets(n, size)`: n slots, slot i over its own new buffer (array k+i) of exactly `size` cells"),
+    ("tie_ring_New", "CM.GoTie.GoNewRP.go_NewRollingPercentile_eq", "`NewRollingPercentile` = those buckets in a ring of n buckets of the given width from `now`"),
+    ("tie_ring_New_abs", "CM.GoTie.GoNewRP.newRP_abs", "… read back into the model it is `RP.new n w size`"),
+    ("tie_ring_New_own", "CM.GoTie.GoNewRP.NewRollingPercentile_new", "… buffers pairwise distinct, all fresh, nothing older disturbed")]) + T("GoRPSnap", [
+    ("tie_ring_SnapshotAt", "CM.GoTie.GoRPSnap.go_SnapshotAt_eq", "`SnapshotAt(now)` = `RP.snapshot now`"),
+    ("tie_ring_SnapshotAt_sorted", "CM.GoTie.GoRPSnap.go_SnapshotAt_is_SortedDurations", "… literally today's `SortedDurations(now)`"),
+    ("tie_ring_Snapshot", "CM.GoTie.GoRPSnap.go_Snapshot_eq", "`Snapshot()` = `RP.snapshot` at exactly one wall-clock reading")]) + T("GoDBIter", [
+    ("tie_slot_IterateDurations", "CM.GoTie.GoDBIter.go_IterateDurations_eq", "`IterateDurations` hands the callback the cells at i % size for i = cur-1 … start, newest first, and returns the cursor")]) + T("GoSDVar", [
+    ("tie_sd_Var", "CM.GoTie.GoSDVar.go_Var_eq", "`Var()` returns the function value closed over THIS snapshot"),
+    ("tie_sd_Var_eval", "CM.GoTie.GoSDVar.go_Var_eval_eq", "evaluating it publishes min, p25=Percentile(25), p50=Percentile(50), p90=Percentile(90), p99=Percentile(99), max, mean"),
+    ("tie_sd_Var_labels", "CM.GoTie.GoSDVar.varSummary_labels", "… every label of `SD.varLabels` carries Percentile at its own number"),
+    ("tie_sd_Var_same_Percentile", "CM.GoTie.GoSDVar.go_Percentile_same", "the Percentile this unit calls is the body tied in GoSortedDurations")])
+
 # ---- K6: interference ties (CircuitProofs/GoTie/I_*): the bodies translated over primitives in which an arbitrary move of the
 # other goroutines precedes every atomic / lock operation take exactly the steps of the small-step model's thread
 K6_CORE = [(("tie_k6_thread_view", "CM.GoTie.ICore.thread_view", "every schedule of any system, seen from one thread, is a run of that thread alone against SOME oracle: what is proved for every oracle covers every schedule"), "I_Core")]
@@ -201,9 +224,9 @@ PROPS = {
             SETCFG + LIVECFG + OPENER_CFG + CLOSER_CFG + SLO_CFG),
     "C12": ("every timestamp is a reading of the configured clock: all translated functions of circuit.go",
             [C("now"), C("OpenCircuit"), C("CloseCircuit"), RUN, FALLBACK] + ALL),
-    "C13": ("the rolling counter: rolling_bucket.go's `Advance` and rolling_counter.go's methods are the model `RC`", ROLL),
+    "C13": ("the rolling counter: rolling_bucket.go's `Advance` and rolling_counter.go's methods are the model `RC`", ROLL + FSNEW_RC),
     "C14": ("the counter under interference: every atomic step of rolling_counter.go / rolling_bucket.go is the small-step model's", K6_RC + K6_CORE + ATOM_I64),
-    "C15": ("rolling_percentile.go: the ring of circular buffers is the model `RP` / `DSlot`, the snapshot's numbers are the model `SD`", RPT + SD),
+    "C15": ("rolling_percentile.go: the ring of circular buffers is the model `RP` / `DSlot`, the snapshot's numbers are the model `SD`", RPT + SD + FSNEW_RP),
     "C16": ("the gate: timedcheck.go's method bodies are the model `TC`", TC + K6_TC + K6_CORE + ATOM_BOOL + ATOM_I64),
     "C17": ("the registry: manager.go's CreateCircuit / GetCircuit / MustCreateCircuit are the model `Mgr`", MGR),
     "C20": ("the collectors' method bodies, translated from today's rolling.go / responsetime.go, are the model's functions",
@@ -232,6 +255,8 @@ UNITS = {"F_": "gocircuit", "All": "gocircuit", "T_GoHOpener": "gohopener", "T_G
          "T_GoRollingPercentile": "gorollingpercentile", "T_GoDurationsBucket": "godurationsbucket",
          "T_GoIsBadRequest": "goisbadrequest", "T_GoCircuitError": "gocircuiterror", "T_GoSimpleBadRequest": "gosimplebadrequest",
          "T_GoAtomicBoolean": "goatomicboolean", "T_GoAtomicInt64": "goatomicint64",
+         "T_GoNewRC": "gonewrc", "T_GoNewRP": "gonewrp", "T_GoRCWall": ["gorcwall", "gorollingcounter", "gorollingbuckets"], "T_GoRPSnap": ["gorpsnap", "gorollingpercentile", "gorollingbucketsp", "godurationsbucket"],
+         "T_GoDBIter": "godbiter", "T_GoSDVar": ["gosdvar", "gosorteddurations"],
          "I_Core": [], "I_RC": ["gorciclear", "gorciadv", "gorciops"], "I_TC": "gotci", "I_Call": "gocalli",
          "T_GoLiveLogic": ["goneveropens", "gonevercloses", "gohopenercfg", "gohclosercfg", "goslocfg"]}
 
